@@ -177,6 +177,9 @@ func copyUsed(m map[string]bool) map[string]bool {
 
 func (g *Gen) genCmd(name string, depth int, usedOpts map[string]bool, reserved map[string]bool) *CmdDef {
 	c := &CmdDef{Name: name, UnknownMode: g.pickInt(g.UModes)}
+	if c.UnknownMode >= 0 && g.pct(15) {
+		c.UModeFirst = 1 + g.r.Intn(3)
+	}
 	if g.pct(40) {
 		c.Desc = []string{"does things", "line1\nline2", "é", "50% done %v"}[g.r.Intn(4)]
 	}
@@ -262,6 +265,9 @@ func collectOptNames(c *CmdDef, into map[string]bool) {
 func (g *Gen) GenProg() *ProgDef {
 	p := &ProgDef{Mode: g.pickInt(g.Modes), Env: map[string]string{}}
 	p.MapLower = g.pct(10)
+	if g.pct(15) {
+		p.ModeFirst = 1 + g.r.Intn(3)
+	}
 	reserved := map[string]bool{}
 	if g.pct(g.PHelp) {
 		p.Help = true
@@ -331,6 +337,9 @@ func (g *Gen) valueFor(kind int) string {
 		return g.pick(intPool)
 	case KIntRep:
 		switch {
+		case g.pct(1) && g.pct(30):
+			// a range wider than any plausible internal chunk or cap
+			return "0..70000"
 		case g.pct(20):
 			return g.pick(rangePool)
 		case g.pct(20):
